@@ -85,7 +85,7 @@ PROOFS = [
     {'name': 'Q_ctor', 'enforce': 'Pistache_Http_Mime_Q_ctor', 'props': ['C18']},
     {'name': 'Q_fromFloat', 'enforce': 'Pistache_Http_Mime_Q_fromFloat', 'props': ['C18', 'C03'], 'flags': ['--conversion-check', '--float-overflow-check', '--nan-check'],
      'replay': {'driver': 'qfloat', 'argv': ['$f'], 'link': False}},
-    {'name': 'MediaType_parseRaw', 'enforce': 'Pistache_Http_Mime_MediaType_parseRaw', 'loops': 'contracts', 'props': ['C18', 'C03'], 'cost': 60, 'timeout': 3600, 'object_bits': 11, 'mem_gb': 24, 'defs': ['-DVS_LIGHT'],
+    {'name': 'MediaType_parseRaw', 'enforce': 'Pistache_Http_Mime_MediaType_parseRaw', 'loops': 'contracts', 'props': ['C18', 'C03'], 'quick_props': ['C18'], 'cost': 60, 'timeout': 3600, 'object_bits': 11, 'mem_gb': 24, 'defs': ['-DVS_LIGHT'],
      'harness': 'void h_MediaType_parseRaw(void) { struct Pistache_Http_Mime_MediaType *a0; char *a1; size_t a2; Pistache_Http_Mime_MediaType_parseRaw(a0, a1, a2); }\n',
      'replace': [ADV, 'Pistache_match_string', 'Pistache_match_literal', 'Pistache_match_raw', 'Pistache_match_until_il', 'Pistache_match_until_c', 'Pistache_match_double', 'Pistache_Http_Mime_Q_fromFloat']},
 ]
